@@ -380,6 +380,36 @@ def returnTableOk (tbl : List (String × List (Bool × Bool))) : Bool :=
     | some rets => decide (2 ≤ rets.length) && rets.all fun (w, b) => w && (g.family != .line || b)
     | none => false
 
+/-- content of one frame as a boolean expression over `acs` (the frame's ACS pattern), `draw` (what is
+drawn / rasterised for this frame) and `other` (anything else: a value shared between frames, another
+frame, something the translator does not understand); `ite` is a choice on an unknown condition. -/
+inductive BExp where
+  | acs | draw | other | ff
+  | or (a b : BExp)
+  | ite (a b : BExp)
+deriving Repr, DecidableEq
+
+def BExp.eval (acs draw other cond : Bool) : BExp → Bool
+  | .acs => acs
+  | .draw => draw
+  | .other => other
+  | .ff => false
+  | .or a b => a.eval acs draw other cond || b.eval acs draw other cond
+  | .ite a b => if cond then a.eval acs draw other cond else b.eval acs draw other cond
+
+def allBool (p : Bool → Bool) : Bool := p false && p true
+
+/-- well-formedness of the per-generator assembly table extracted from the 14 `mask_func` bodies: the mask
+branch is `draw ∨ acs` of the *same frame* and the `return_acs` branch is `acs`, whatever `other` and the
+unknown conditions are. -/
+def assemblyTableOk (tbl : List (String × BExp × BExp)) : Bool :=
+  Gen.all.all fun g =>
+    match tbl.lookup g.name with
+    | some (m, a) =>
+      allBool fun acs => allBool fun draw => allBool fun other => allBool fun cond =>
+        (m.eval acs draw other cond == (draw || acs)) && (a.eval acs draw other cond == acs)
+    | none => false
+
 /-- the constructor-parameter table `build_masking_function` filters its keyword arguments with:
 `(name, accepts center_fractions, uniform_range, mode, crop_corner)` -/
 def buildTable : List (String × Bool × Bool × Bool × Bool) :=
